@@ -5,7 +5,9 @@
    cfg = mutex kind :: indices of the user-code invocations that throw
      mutex kind 0 shared_timed_mutex (default M), 1 shared_mutex, 2 timed_mutex, 3 mutex
    A task is one submitted functor (modify_detach / modify_async), numbered in order of invocation.
-   Functor fid:  user_call(fid); x.write(x.read() * 16 + fid)   (modify_async returns the new value). *)
+   Functor fid:  user_call(fid); x.write(apply_f fid (x.read()))   (modify_async returns the new value), where
+   apply_f fid v = 16 v + fid for fid < 100 (the payload is the log of the applied functors) and = fid otherwise
+   (long bursts of submissions: the payload is the last functor applied). *)
 From Coq Require Import List Arith ZArith Bool.
 Import ListNotations.
 From GV Require Import Sched Events.
@@ -168,6 +170,9 @@ Definition rel_shared (g : glob) : glob * list ev :=
   if shcap g then (set_nsh g (pred (nsh g)), [E K_UNLOCK_SH O_MTX 0])
   else (set_owner g None, [E K_UNLOCK O_MTX 0]).
 
+(* what the harness functor fid computes from the payload value v *)
+Definition apply_f (fid v : Z) : Z := if fid <? 100 then v * 16 + fid else fid.
+
 Definition ret (v : Z) : ev := E K_RET 0 v.
 Definition inv_ev (o : op) : ev := E K_INVOKE 0 (opcode o).
 
@@ -270,7 +275,7 @@ Definition tstep0 (t c : nat) (g : glob) (l : loc) : option (glob * loc * list e
     | None => Some (set_tmtx g tk (Some t), goto (F_call (BQ c tk r)), [E K_LOCK (O_TASK tk) 0])
     | Some _ => None
     end
-  (* a functor body: user_call(fid); x.write(x.read() * 16 + fid) *)
+  (* a functor body: user_call(fid); x.write(apply_f fid (x.read())) *)
   | F_call b =>
     let tk := btask b in
     let k := calls g in
@@ -284,7 +289,7 @@ Definition tstep0 (t c : nat) (g : glob) (l : loc) : option (glob * loc * list e
   | F_wrb b v => let '(g', es) := wr_begin g in Some (g', goto (F_wre b v), es)
   | F_wre b v =>
     let tk := btask b in
-    let nv := v * 16 + tfid g tk in
+    let nv := apply_f (tfid g tk) v in
     let '(g', es) := wr_end g nv in
     Some (ghost_of (set_tfut g' tk (FVal nv)) (fun h => h_done (h_fset h tk) tk), goto (body_done g b false), es)
   | T_unlock c tk r => Some (set_tmtx g tk None, goto (after_drain c r), [E K_UNLOCK (O_TASK tk) 0])
